@@ -100,6 +100,143 @@ def pat_byte(img, k):
     return img.pattern.get_block(k + 1)[k]
 
 
+# ------------------------------------------------------------------------------------------------ HEX / SREC text model
+def _fix_crc(rec, fmt):
+    """recompute the checksum of an edited record (None when the payload is no longer hex)"""
+    try:
+        if fmt == "HEX":
+            body = bytes.fromhex(rec[1:-2])
+            return rec[:-2] + f"{(-sum(body)) & 0xFF:02X}"
+        body = bytes.fromhex(rec[2:-2])
+        return rec[:-2] + f"{(~sum(body)) & 0xFF:02X}"
+    except ValueError:
+        return None
+
+
+def _is_data(rec, fmt):
+    return rec[7:9] == "00" if fmt == "HEX" else rec[1] == "3"
+
+
+MUTATIONS = ["crc", "digit", "len_field", "drop_byte", "add_byte", "type", "odd", "nonhex", "inner_space", "lower", "crlf", "cr", "blank_lines",
+             "lead_blank", "indent_first", "indent_other", "trail_ws", "no_last", "eof_first", "swap", "dup", "truncate", "empty_ela", "zero_data",
+             "only_footer", "esa", "count_wrong", "short_rec", "drop_rec", "start_rec"]
+
+
+def mutate_text(rng, text, fmt, kind):
+    """-> mutated text (str, ASCII) or None when the mutation does not apply"""
+    recs = text.split("\n")[:-1]
+    pfx = 9 if fmt == "HEX" else 2  # first data-ish position whose edit never touches ':' / 'S' / type char
+    i = rng.randrange(len(recs))
+    r = recs[i]
+    data_idx = [j for j, x in enumerate(recs) if _is_data(x, fmt)]
+    H = "0123456789ABCDEF"
+    if kind == "crc":
+        recs[i] = r[:-2] + f"{(int(r[-2:], 16) + rng.randrange(1, 256)) & 0xFF:02X}"
+    elif kind == "digit":
+        k = rng.randrange(1 if fmt == "HEX" else 2, len(r))
+        recs[i] = r[:k] + rng.choice([c for c in H if c != r[k]]) + r[k + 1:]
+    elif kind == "len_field":
+        a = 1 if fmt == "HEX" else 2
+        recs[i] = _fix_crc(r[:a] + f"{(int(r[a:a + 2], 16) + rng.choice([1, 255, 2])) & 0xFF:02X}" + r[a + 2:], fmt)
+    elif kind == "drop_byte":
+        if len(r) - 2 - pfx < 2:
+            return None
+        k = pfx + 2 * rng.randrange((len(r) - 2 - pfx) // 2)
+        recs[i] = _fix_crc(r[:k] + r[k + 2:], fmt)
+    elif kind == "add_byte":
+        recs[i] = _fix_crc(r[:-2] + f"{rng.getrandbits(8):02X}" + r[-2:], fmt)
+    elif kind == "type":
+        if fmt == "HEX":
+            recs[i] = _fix_crc(r[:7] + rng.choice(["00", "01", "02", "03", "04", "05", "06", "07", "10", "FF"]) + r[9:], fmt)
+        else:
+            recs[i] = r[0] + rng.choice("0123456789AS") + r[2:]
+    elif kind == "odd":
+        k = rng.randrange(1, len(r))
+        recs[i] = r[:k] + r[k + 1:]
+    elif kind == "nonhex":
+        k = rng.randrange(1 if fmt == "HEX" else 2, len(r))
+        recs[i] = r[:k] + rng.choice("Gg:SxZ-") + r[k + 1:]
+    elif kind == "inner_space":
+        k = rng.randrange(1, len(r))
+        recs[i] = r[:k] + rng.choice([" ", "\t", "  "]) + r[k:]
+    elif kind == "lower":
+        recs[i] = r.lower() if fmt == "HEX" else "S" + r[1:].lower()
+    elif kind == "crlf":
+        return "\r\n".join(recs) + "\r\n"
+    elif kind == "cr":
+        return "\r".join(recs) + "\r"
+    elif kind == "blank_lines":
+        k = rng.randrange(1, len(recs) + 1)
+        recs[k:k] = [rng.choice(["", "  ", "\t", " \x0c"])] * rng.randint(1, 2)
+    elif kind == "lead_blank":
+        recs.insert(0, rng.choice(["", " "]))
+    elif kind == "indent_first":
+        recs[0] = rng.choice([" ", "\t"]) + recs[0]
+    elif kind == "indent_other":
+        if len(recs) < 2:
+            return None
+        k = rng.randrange(1, len(recs))
+        recs[k] = rng.choice([" ", "\t ", "   "]) + recs[k]
+    elif kind == "trail_ws":
+        recs[i] = r + rng.choice([" ", "\t", "  \t", "\x0b"])
+    elif kind == "no_last":
+        recs.pop()
+        if not recs:
+            return None
+    elif kind == "eof_first":
+        recs.insert(0, recs.pop())
+    elif kind == "swap":
+        if len(data_idx) < 2:
+            return None
+        a, b = rng.sample(data_idx, 2)
+        recs[a], recs[b] = recs[b], recs[a]
+    elif kind == "dup":
+        if not data_idx:
+            return None
+        a = rng.choice(data_idx)
+        recs.insert(rng.choice([a, a + 1, len(recs) - 1]), recs[a])
+    elif kind == "truncate":
+        t = "\n".join(recs) + "\n"
+        return t[:rng.randrange(1, len(t))]
+    elif kind == "empty_ela":
+        if fmt != "HEX":
+            return None
+        recs.insert(i, rng.choice([":00000004FC", ":00000002FE", ":00000005FB"]))  # int('', 16): ValueError inside bincopy
+    elif kind == "zero_data":
+        recs.insert(i, _fix_crc(f":00{rng.choice([0, 0x20, 0xFFFF]):04X}0000", "HEX") if fmt == "HEX" else _fix_crc(f"S305{rng.getrandbits(32):08X}00", "S19"))
+    elif kind == "only_footer":
+        recs = [x for j, x in enumerate(recs) if j not in data_idx]
+    elif kind == "esa":
+        if fmt != "HEX":
+            return None
+        recs.insert(i, _fix_crc(":02000002" + rng.choice(["0000", "1000", "0001", "FFFF"]) + "00", "HEX"))
+    elif kind == "count_wrong":
+        if fmt == "HEX":
+            return None
+        recs = [(_fix_crc(x[:4] + f"{rng.getrandbits(16):04X}" + x[8:], fmt) if x[1] == "5" else x) for x in recs]
+    elif kind == "short_rec":
+        # shorter than its own address field (bincopy slices without checking)
+        if fmt == "HEX":
+            recs.insert(i, rng.choice([":0000000", ":00000001F", ":", ":00"]))
+        else:
+            recs.insert(i, _fix_crc("S3" + rng.choice(["01", "02AB", "03ABCD", "0400ABCD"]) + "00", "S19"))
+    elif kind == "drop_rec":
+        if len(recs) < 2:
+            return None
+        del recs[i]
+    elif kind == "start_rec":
+        recs.insert(i, _fix_crc(":04000005" + f"{rng.getrandbits(32):08X}" + "00", "HEX") if fmt == "HEX" else _fix_crc(f"S705{rng.getrandbits(32):08X}00", "S19"))
+    if any(x is None for x in recs):
+        return None
+    return "\n".join(recs) + "\n"
+
+
+def image_canon(img):
+    """loaded BinaryImage -> the line the model driver prints for a decoded text"""
+    e = "N" if img.execution_start_address is None else str(img.execution_start_address)
+    return "ok:" + " ".join([e] + [f"{c.absolute_address}:{hexs(c.binary or b'')}" for c in img.sub_images])
+
+
 def run(ck):
     from spsdk.utils.images import BinaryImage
     from spsdk.utils.misc import BinaryPattern
@@ -329,6 +466,102 @@ def run(ck):
                 st.expect(ld[1].absolute_address == lo and data2 == exp, toks,
                           f"{fmt} round trip does not give export()'s bytes at the same addresses", (ld[1].absolute_address, data2[:64]), (lo, exp[:64]),
                           finding="C16-hex-unpatterned-child-transparent" if unpatterned_under_pattern(img, False) else None)
+
+    # ---------------------------------------------------------------- HEX / SREC text model (Model/HexFmt.lean)
+    hexfmt_model(ck, drv, scratch)
+
+
+def hexfmt_model(ck, drv, scratch):
+    from spsdk.utils.images import BinaryImage
+    rng = ck.rng
+    ck.assume("HEX/SREC model: text is ASCII; TI-TXT / Verilog-VMEM sniffing after SREC and IHEX is not modelled (none of the generated texts is valid in those formats); "
+              "bincopy.Segments.add with overwrite=True on ascending non-overlapping non-empty segments is modelled as 'merge when adjacent, else append'")
+    sh = ck.stream("hexfmt_model", "Lean model of bincopy's Intel-HEX / S-record writer and reader vs the real code: (i) the TEXT save_binary_image writes for 1-4 ascending "
+                   "segments of 1..600 bytes (classes: 64 KiB crossing, 0xFFFFFFE0.., 1/32/33-byte, adjacent, optional execution start address) byte for byte, "
+                   "(ii) the segments/start address load_binary_image reads back from that text, (iii) ~30 kinds of malformed / unusual text (bad checksum, flipped digit, "
+                   "wrong length, unknown type, odd digits, non-hex, inner white space, CR/CRLF, blank lines, swapped / duplicated / dropped records, zero-length and "
+                   "too-short records, empty 02/04/05 records ...): accepted as HEX/SREC or not (raw-BIN fall-back counts as refused); non-trivial = distinct case")
+    reqs = []
+
+    def real_load(path, raw):
+        """-> ('acc', canon line) | ('ref', how)"""
+        ld = pyres(BinaryImage.load_binary_image, path)
+        if ld[0] != "ok":
+            return ("ref", ld[0])
+        subs = ld[1].sub_images
+        if len(subs) == 1 and subs[0].binary == raw and ld[1].absolute_address == 0:
+            return ("ref", "bin-fallback")
+        return ("acc", image_canon(ld[1]))
+
+    boundary = [(0xFFF0, [(0, 32)]), (0xFFFF, [(0, 2)]), (0xFFE1, [(0, 64)]), (0xFFFF_FFE0, [(0, 32)]), (0xFFFF_FFDF, [(0, 33)]), (0xFFFF_FFFF, [(0, 1)]),
+                (0, [(0, 1)]), (0, [(0, 32)]), (0, [(0, 33)]), (0x1_0000, [(0, 1)]), (0xFFFF, [(0, 1), (1, 1)]), (0x2000_0000, [(0, 32), (32, 32)]),
+                (0x1FFFF, [(0, 1), (1, 33), (40, 1)]), (0xFFFE_FFF0, [(0, 16), (16, 16), (0x10000, 5)]), (0x12345678, [(0, 31), (31, 1), (32, 1)]),
+                (0xFFFF_0000, [(0, 600)]), (0x7FFF_FFF0, [(0, 100)]), (0, [(0, 255), (255, 256), (0x10000, 1)])]
+    ncases = ck.budget(220, 3000)
+    for k in range(ncases):
+        if k < len(boundary):
+            base, lay = boundary[k]
+            segs = [(o, bytes(rng.getrandbits(8) for _ in range(n))) for o, n in lay]
+            pos = segs[-1][0] + len(segs[-1][1])
+        else:
+            base = rng.choice([0, 0x10, 0xFFF0, 0xFFFF, 0x10000, 0xFFFFF0, 0x1000000, 0x0800_0000, 0xFFFF_F000, 0xFFFF_FFE0, rng.getrandbits(32)])
+            segs, pos = [], 0
+            for _ in range(rng.randint(1, 4)):
+                pos += rng.choice([0, 0, 1, 16, 0x100, 0xFFF0, rng.randrange(0x20000)])
+                ln = rng.choice([1, 1, 2, 15, 16, 17, 31, 32, 33, 64, 65, 255, 256, rng.randrange(1, 600)])
+                segs.append((pos, bytes(rng.getrandbits(8) for _ in range(ln))))
+                pos += ln
+        if base + pos > 0x1_0000_0000:
+            base = 0x1_0000_0000 - pos
+        ex = rng.choice([None, None, None, 0, 0x2000_0401, 0xFFFF_FFFF, rng.getrandbits(32)])
+        root = BinaryImage("root", offset=base, execution_start_address=ex)
+        for i, (o, d) in enumerate(segs):
+            root.add_image(BinaryImage(f"s{i}", offset=o, binary=d))
+        seg_toks = " ".join(f"{base + o}:{d.hex()}" for o, d in segs)
+        etok = "N" if ex is None else str(ex)
+        adjacent = any(segs[i][0] + len(segs[i][1]) == segs[i + 1][0] for i in range(len(segs) - 1))
+        crossing = any((base + o) >> 16 != (base + o + len(d) - 1) >> 16 for o, d in segs)
+        for fmt, op in (("HEX", "ihex"), ("S19", "srec")):
+            inp = (fmt, base, ex, [(o, hexs(d)) for o, d in segs])
+            path = os.path.join(scratch, f"hm_{k}.{fmt.lower()}")
+            sh.note(inp, cls=f"{fmt}:write" + ("+adjacent" if adjacent else "") + ("+64k" if crossing else ""))
+            sv = pyres(root.save_binary_image, path, fmt)
+            if sv[0] != "ok":
+                sh.expect(False, inp, "save_binary_image raised", sv)
+                continue
+            with open(path, "rb") as fh:
+                raw = fh.read()
+            # (i) text byte for byte
+            reqs.append(((inp, "text"), f"{op}_enc {etok} {seg_toks}", "ok:" + raw.hex()))
+            # (ii) what SPSDK reads back from it (through format sniffing)
+            rl = real_load(path, raw)
+            sh.expect(rl[0] == "acc", inp, "load_binary_image does not load the HEX/S19 text SPSDK wrote", rl)
+            reqs.append(((inp, "read-back"), f"load_text {raw.hex()}", rl[1] if rl[0] == "acc" else "refused"))
+            reqs.append(((inp, "read-back " + op), f"{op}_dec {raw.hex()}", rl[1] if rl[0] == "acc" else "refused"))
+            os.unlink(path)
+            # (iii) malformed / unusual variants of this text: accepted or refused
+            text = raw.decode("ascii")
+            for kind in rng.sample(MUTATIONS, ck.budget(3, 6)):
+                mt = mutate_text(rng, text, fmt, kind)
+                if mt is None or not mt.strip():
+                    continue
+                mraw = mt.encode("ascii")
+                mpath = os.path.join(scratch, f"hm_{k}_m.{fmt.lower()}")
+                with open(mpath, "wb") as fh:
+                    fh.write(mraw)
+                minp = (fmt, kind, mt if len(mt) < 400 else mt[:400] + "...")
+                rl = real_load(mpath, mraw)
+                strict = pyres(BinaryImage.load_binary_image, mpath, load_bin=False)
+                os.unlink(mpath)
+                sh.note((fmt, kind, mt), cls=f"{fmt}:{kind}:" + ("accepted" if rl[0] == "acc" else "refused"))
+                sh.expect((strict[0] == "ok") == (rl[0] == "acc") and strict[0] in ("ok", "E:spsdk"), minp,
+                          "load_binary_image(load_bin=False) and the default call disagree on whether the text is HEX/SREC", (strict[0], rl))
+                reqs.append(((minp, "accept/refuse"), f"load_text {mraw.hex()}", "accepted" if rl[0] == "acc" else "refused"))
+    if drv is not None:
+        for (inp, line, real), ans in zip(reqs, drv.batch([r[1] for r in reqs])):
+            if real in ("accepted", "refused"):
+                ans = "accepted" if ans.startswith("ok:") else ("refused" if ans.startswith("E:") else ans)
+            sh.compare(inp, real, ans)
 
 
 def replay(ck, data):
